@@ -16,6 +16,7 @@ import ext_layer            # extensibility layer (lib/ext_layer.py, notes/desig
 import setdef_layer         # SET / DEFAULT layer (lib/setdef_layer.py, notes/design/SetDef.md)
 import primb_layer          # restricted character strings (lib/primb_layer.py, notes/design/PrimB.md)
 import prima_layer          # ENUMERATED / BIT STRING layer (lib/prima_layer.py, notes/design/PrimA.md)
+import c01_dflt             # DEFAULT components x extension additions (lib/c01_dflt.py, coq/Rt/DefaultRt.v)
 
 SYNS = ["der", "cper", "coer", "xer", "cxer"]
 TIMES = {}
@@ -292,6 +293,7 @@ def main(tier):
     setdef_layer.run_c01(run, rng, tier)
     primb_layer.run_c01(run, rng, tier)
     prima_layer.run_c01(run, rng, tier)
+    c01_dflt.run(run, rng, tier)
     tb = ["Coq 8.16.1 kernel; vm_compute for the Example", "axioms under Print Assumptions: " + (", ".join(sorted(axioms)) or "none (Closed under the global context)"),
           "extraction: ExtrOcamlBasic only; OCaml 4.13.1", "lib/modgen.py (generator, independent X.680 tagging), lib/widefind.py (wide generator, classifier predicates of the known findings), harness/moddrv.c + harness/moddrv_wide.inc (the rt/wrt battery is the property evaluated in C; deep constraint walk; value-level facts), gcc + ASan/UBSan",
           "values of the wide layer come from the library's own asn_random_fill"]
